@@ -2,7 +2,7 @@
  * string and its length so that the (assumed) contract of strlen and the extra requires
  * clause on blake3_hasher_init_derive_key_raw can talk about them */
 void harness(void) {
-  VERIF_HAVOC_GLOBALS();
+  VERIF_PROLOGUE();
   size_t n;
   __CPROVER_assume(n < VERIF_MAX_OBJ);
   char *ctx = malloc(n + 1);
